@@ -47,13 +47,13 @@ PROPS = {
                 oracles=['wellformed'],
                 filt=lambda k, o: not (k == 'R' and o in (ROOT_OPS | EQ_OPS | SSZ_OPS | SERDE_OPS | BUILDER_OPS)),
                 key=lambda ops: True),
-    'C02': dict(fams=['crud', 'versions', 'rebase_pairs', 'intra', 'suffix', 'capacity', 'big', 'deep', 'hash_placement'],
+    'C02': dict(fams=['crud', 'versions', 'rebase_pairs', 'intra', 'suffix', 'capacity', 'big', 'deep', 'hash_placement', 'fault'],
                 views=['obs'], oracles=[], filt=lambda k, o: k == 'R' and o in ROOT_OPS,
                 key=lambda ops: any(o.startswith('hash') for o in ops)),
-    'C03': dict(fams=['hash_placement', 'rebase_pairs', 'intra', 'versions', 'crud'], views=['obs', 'memo'],
+    'C03': dict(fams=['hash_placement', 'rebase_pairs', 'intra', 'versions', 'crud', 'fault'], views=['obs', 'memo'],
                 oracles=['memo'], filt=lambda k, o: k == 'R' and o in ROOT_OPS,
                 key=lambda ops: sum(o.startswith('hash') for o in ops) >= 2),
-    'C04': dict(fams=['versions', 'rebase_pairs', 'hash_placement'], views=['obs'], oracles=[],
+    'C04': dict(fams=['versions', 'rebase_pairs', 'hash_placement', 'intra'], views=['obs'], oracles=[],
                 filt=lambda k, o: k == 'O' or o in ROOT_OPS | EQ_OPS,
                 key=lambda ops: any(o.startswith(('clone', 'to_vector', 'to_list', 'rebase')) for o in ops)),
     'C05': dict(fams=['capacity', 'codec', 'bulk', 'invalid_args'], views=['obs'], oracles=['wellformed'],
@@ -81,7 +81,7 @@ PROPS = {
                 key=lambda ops: True, lockstep=True),
     'C15': dict(fams=['invalid_args', 'bulk', 'capacity', 'deep', 'codec', 'builder'], views=['obs'],
                 oracles=['wellformed', 'error_preserves'], filt=f_all, key=lambda ops: True),
-    'C16': dict(fams=['par'], views=['obs'], oracles=['memo'], filt=lambda k, o: k == 'R' and o in ROOT_OPS,
+    'C16': dict(fams=['par', 'fault'], views=['obs'], oracles=['memo'], filt=lambda k, o: k == 'R' and o in ROOT_OPS,
                 key=lambda ops: any(o.startswith('par_') for o in ops), repeat=True),
     'C17': dict(fams=['builder', 'builder_nodes'], views=['obs'], oracles=['builder'],
                 filt=lambda k, o: k == 'R' and o in BUILDER_OPS,
@@ -537,7 +537,12 @@ def check(prop, tier, seed):
                     for i, t in enumerate(impl_r):
                         if t is None or impl[i] is None:
                             continue
-                        if [l for l in t['lines'] if l[0] in 'RO'] != [l for l in impl[i]['lines'] if l[0] in 'RO']:
+                        # whether an injected fault fires inside a racing operation is schedule dependent: the
+                        # result line of the operation that follows a `fault k` is not compared between runs
+                        ops_i = [l for l in hs[i].splitlines()[1:] if l and not l.startswith('#')]
+                        skip = {'R %d ' % (k + 2) for k, o in enumerate(ops_i) if o.startswith('fault ')}
+                        ro = lambda tr: [l for l in tr['lines'] if l[0] in 'RO' and not any(l.startswith(p) for p in skip)]
+                        if ro(t) != ro(impl[i]):
                             findings.append((i, [oracles.Finding(0, 'results differ between runs (RAYON_NUM_THREADS=%s, repetition %d)' % (nt, r))]))
         # per-history analysis (reference semantics, structural oracles, model/implementation comparison) in
         # forked workers: the traces are inherited through the module-level _AN
